@@ -34,6 +34,7 @@ ASSUMPTIONS = [
     "variable lists are only defined for the amr/hydro/grav/rt/part descriptors; the sink group can only be switched on or off",
     "derived variables: 'mass' is expected iff density and dx are both loaded, 'B_field' iff both B_left and B_right are assembled vectors",
     "a file-presence configuration removes files the loader treats as optional: all grav files, the rt or part descriptor, the sink csv",
+    "in 15% of the runs the restricted load is made on a dataset object that already holds the full load; groups the call does not ask for are then the ones kept from that load and are not judged",
 ]
 REAL_STUB = {
     "real": ["osyris.io Loader and all readers (skip branches, step_over, reader initialisation)", "make_vector_arrays", "config.additional_variables"],
@@ -109,7 +110,11 @@ def generate(rng, tier):
         cand = (["grav"] if p["grav"] else []) + (["rt"] if p["rt_vars"] else []) + (["part"] if p["part"] else []) + (["sink"] if p["sink"] else [])
         if cand:
             absent = [rng.choice(cand)]
-    return {"world": p, "select": sel, "absent": absent, "warm": rng.random() < 0.25, "before_box": before_box}
+    case = {"world": p, "select": sel, "absent": absent, "warm": rng.random() < 0.25, "before_box": before_box}
+    if before_box is None and rng.random() < 0.15:
+        # the restricted load is made on a dataset object that already holds the full load
+        case["on_full"] = True
+    return case
 
 
 def describe(case):
@@ -207,6 +212,12 @@ def execute(case, stats):
                     del ds0[g_]  # the user drops the groups of that load; what the next load returns is judged as usual
             except Exception:
                 ds0 = None
+        if case.get("on_full") and ds0 is None:
+            stats.inc("probe.restricted_load_on_a_dataset_holding_the_full_load")
+            try:
+                ds0, _ = disk.load()
+            except Exception:
+                ds0 = None
         try:
             seam_s = FsSeam()
             sub, _ = disk.load(ds=ds0, seam=seam_s, **({"select": select} if select is not None else {}))
@@ -234,6 +245,8 @@ def execute(case, stats):
             r = req[g]
             if r is False:
                 skipped += 1
+                if case.get("on_full"):
+                    continue  # (a group this call does not ask for is the one kept from the earlier full load)
                 if g in sub and (g != "mesh" or len(sub[g].keys())):
                     V("projection", "excluded-group-present", {"group": g, "keys": list(sub[g].keys())})
                 continue
@@ -274,11 +287,11 @@ def execute(case, stats):
                     V("projection", "requested-variable-missing", {"group": g, "key": k, "keys": sorted(have), "select": names})
             all_merged = merge_names(want_raw_all, q["ndim"])
             stored_names = set(all_merged) | set(want_raw_all)
-            for k in have:
+            for k in sorted(have):
                 # only keys that stand for stored variables can be "excluded but present"
                 if k not in want and k not in derived and k in stored_names:
                     V("projection", "excluded-variable-present", {"group": g, "key": k, "select": names})
-            for k in derived:
+            for k in sorted(derived):
                 if k not in have:
                     V("projection", "derived-missing", {"group": g, "key": k})
             if viol:
@@ -298,7 +311,7 @@ def execute(case, stats):
                         V("projection", "values", {"group": g, "raw": raw, "shape_sub": list(va.shape), "shape_full": list(vb.shape), "row": i,
                                                    "got": float(va[i]) if i >= 0 else None, "want": float(vb[i]) if i >= 0 else None,
                                                    "unit_sub": str(comp.unit), "unit_full": str(ref.unit), "select": names})
-            for k in derived:
+            for k in sorted(derived):
                 if k in have and k in full[g]:
                     for a, b in zip(components(sub[g][k]), components(full[g][k])):
                         if not same_array(a, b):
@@ -332,6 +345,8 @@ def reductions(case, viol):
         yield dict(case, warm=False)
     if case.get("before_box"):
         yield dict(case, before_box=None)
+    if case.get("on_full"):
+        yield dict(case, on_full=False)
     used = set()
     if s["form"] == "dict":
         for v in s["groups"].values():
